@@ -557,10 +557,14 @@ func runReplay(r *Run, o *vlib.Oracle) {
 		Replay replayDoc `json:"replay"`
 	}
 	if b, err := os.ReadFile(r.Replay); err == nil && json.Unmarshal(b, &w) == nil && w.Replay.Candidate != "" && w.Replay.Opts.Compress {
-		nv := r.Violations()
-		runChild(r, childSpec{Mode: "replay", Replay: r.Replay})
+		// what such a document shows may depend on how the goroutines of UnspentDB.commit are scheduled: up to 25 attempts
+		nv, n := r.Violations(), 0
+		for n < 25 && r.Violations() == nv {
+			n++
+			runChild(r, childSpec{Mode: "replay", Replay: r.Replay})
+		}
 		restoreStdout()
-		fmt.Printf("replay (child process): kind=%s new violations: %d\n", w.Replay.Kind, r.Violations()-nv)
+		fmt.Printf("replay (child process): kind=%s attempts: %d new violations: %d\n", w.Replay.Kind, n, r.Violations()-nv)
 		return
 	}
 	runReplayHere(r, o)
